@@ -129,7 +129,7 @@ def memo_keys(cfg, length):
 
 def check(prop, tier):
     res = common.Result(prop, tier)
-    B = BOUNDS[tier]
+    B = common.bounds(BOUNDS, tier)
     res.bounds = dict(B)
     full, sub = I.alphabet()
     base = I.baselines(full)
